@@ -22,7 +22,7 @@ RULE = ("randomly generated well-formed definitions (1-10 units; identifiers fro
         "type,check); non-trivial = every generated type")
 
 
-SHAPES = ["basic_ref", "basic_noref", "single", "prod", "square", "quot", "recip", "basic_ref"]
+SHAPES = ["basic_ref", "basic_noref", "single", "prod", "square", "quot", "recip", "big_ref"]
 
 
 def gen_group(g, idx, rng, shape=None):
@@ -31,6 +31,10 @@ def gen_group(g, idx, rng, shape=None):
     defs = []
     if shape in ("basic_ref", "basic_noref", "single"):
         defs.append(g.definition({"basic_ref": "ref", "basic_noref": "noref", "single": "single"}[shape]))
+    elif shape == "big_ref":
+        # more than 20 units with many scale ties in random declaration order: the size at which sort
+        # implementations change algorithm (an unstable sort keeps ties in order below it)
+        defs.append(g.definition("ref", n_units=rng.randint(22, 34), tie_p=0.55))
     else:
         a = g.definition("ref", n_units=rng.randint(2, 5))
         defs.append(a)
